@@ -44,6 +44,13 @@ Definition f64_decomp (b : Z) : bool * Z * Z :=
   let f := b mod 2 ^ 52 in
   if e =? 0 then (neg, f, -1074) else (neg, 2 ^ 52 + f, e - 1075).
 
+(* float32 bits -> (negative?, M, k) with |value| = M * 2^k (finite patterns only) *)
+Definition f32_decomp (b : Z) : bool * Z * Z :=
+  let neg := 2 ^ 31 <=? b in
+  let e := (b / 2 ^ 23) mod 256 in
+  let f := b mod 2 ^ 23 in
+  if e =? 0 then (neg, f, -149) else (neg, 2 ^ 23 + f, e - 150).
+
 (* the lexeme  [-] digits(m) [ e- digits(-e) ]  of the decimal m * 10^e, e <= 0 *)
 Definition dec_lex (neg : bool) (m e : Z) : list Z :=
   (if neg then [45] else []) ++ fmt_nat m ++ (if e =? 0 then [] else 101 :: 45 :: fmt_nat (- e)).
